@@ -412,3 +412,24 @@ def build_estimator(case, register=True):
         ub = None if case.get("ub") is None else np.asarray(case["ub"], dtype=float)
         est.register_system(np.asarray(case["sources"], dtype=float), lb=lb, ub=ub)
     return est
+
+
+@st.composite
+def proportional_variant(draw, sysd, one_in=5):
+    """With probability 1/one_in, an under-determined system gets two sources with proportional captures (two LEDs of the same
+    model, possibly at another drive level): some square sub-systems become exactly singular, the row rank stays full.
+    Returns (system, changed)."""
+    A = np.asarray(sysd["A"], dtype=float)
+    m, n = A.shape
+    if n <= m or draw(st.integers(0, one_in - 1)) != 0:
+        return sysd, False
+    j1 = draw(st.integers(0, n - 1))
+    j2 = draw(st.integers(0, n - 2))
+    j2 = j2 if j2 < j1 else j2 + 1
+    A2 = A.copy()
+    A2[:, j2] = A[:, j1] * draw(st.sampled_from([1.0, 1.0, 2.0, 0.5]))
+    if np.linalg.matrix_rank(A2) < m:
+        return sysd, False
+    out = dict(sysd)
+    out["A"] = A2.tolist()
+    return out, True
